@@ -195,6 +195,48 @@ def dataEditCall (env : Env) (ops : List EditOp) (d : Data) : FRes :=
   | .error .reject => .other Val.none
   | .error (.raise e) => .raise e
 
+/-- a DataEdit OBJECT is its edit list.  Every operation is a `_dualmethod`: `DataEdit.op(…)` called on the
+    class creates a fresh (empty) object first, `obj.op(…)` extends THAT object; the operation appends its
+    one edit function at the end and returns the object (chaining, left to right) -/
+def dataEditNew : List EditOp := []
+
+def dataEditOp (inst : Option (List EditOp)) (op : EditOp) : List EditOp :=
+  match inst with
+  | none => dataEditNew ++ [op]
+  | some l => l ++ [op]
+
+/-! ### references to control blocks -/
+
+/-- the block class a reference must be an instance of (`resolve_name(obj, attr, block_type=…)`) -/
+inductive BlockType where
+  | block | sblock | cblock
+  deriving DecidableEq, Repr, Inhabited
+
+/-- what a circuit block is -/
+inductive BlockKind where
+  | sblock | cblock
+  deriving DecidableEq, Repr, Inhabited
+
+/-- `isinstance(blk, block_type)` -/
+def BlockType.admits : BlockType → BlockKind → Bool
+  | .block, _ => true
+  | .sblock, k => k == .sblock
+  | .cblock, k => k == .cblock
+
+/-- the constructor of a control-block filter: the argument (a block or its name) is stored in an attribute
+    and that attribute is registered with the circuit's resolver together with the required block type;
+    the filter's `__call__` asserts the same type before it uses the block -/
+structure CtrlRef where
+  stored : String               -- the attribute assigned from the argument
+  registered : String           -- the attribute given to `resolve_name`
+  blockType : BlockType         -- `block_type=` (default of the resolver: any Block)
+  deriving DecidableEq, Repr, Inhabited
+
+/-- `IfOutput`: any block has an output -/
+def ifOutputRef : CtrlRef := ⟨"_ctrl_blk", "_ctrl_blk", .block⟩
+/-- `IfNotIitialized`: only a sequential block has an initialisation state -/
+def ifNotInitializedRef : CtrlRef := ⟨"_ctrl_blk", "_ctrl_blk", .sblock⟩
+
 /-! ### filters and the loop in `Event.send` -/
 
 inductive Filter where
@@ -210,6 +252,14 @@ inductive Filter where
 instance : Inhabited Filter := ⟨.notFromUndef⟩
 
 def Filter.mkEdge (a : EdgeArgs) : Filter := .edge a.flags
+
+/-- `IfOutput(blk)` / `IfNotIitialized(blk)` for an existing block of the given kind: a TypeError when the
+    block is not of the registered type (for a name the same check runs when the circuit is finalized) -/
+def Filter.mkIfOutput (kind : BlockKind) (ctrl : String) : Except Err Filter :=
+  if ifOutputRef.blockType.admits kind then .ok (.ifOutput ctrl) else .error .typeError
+
+def Filter.mkIfNotInitialized (kind : BlockKind) (ctrl : String) : Except Err Filter :=
+  if ifNotInitializedRef.blockType.admits kind then .ok (.ifNotInitialized ctrl) else .error .typeError
 def Filter.mkDelta (δ : Rat) : Filter := .delta δ .undef
 
 structure CallResult where
